@@ -222,9 +222,71 @@ static int roundtrip(const std::string& dir, unsigned seed)
     return 0;
 }
 
+// spec/GridValid.tla: which coordinate vectors the constructors accept (vector constructor and grid-file constructor)
+static int valid(const char* file, const std::string& dir)
+{
+    std::ifstream in(file);
+    std::string line;
+    long n = 0, nfail = 0;
+    while (std::getline(in, line)) {
+        if (line.empty())
+            continue;
+        n++;
+        mj::Value t = mj::parse(line);
+        const int full = t["full"].num();
+        std::vector<double> rad, ang;
+        for (const auto& r : t["rad"].arr())
+            rad.push_back(0.25 * r.num());
+        for (const auto& a : t["ang"].arr())
+            ang.push_back(a.num() == full ? 2 * M_PI : 2 * M_PI * a.num() / full);
+        const bool want = t["accept"].boolean();
+        std::string fail;
+        for (int path = 0; path < 2 && fail.empty(); path++) {
+            bool got = false;
+            std::string what;
+            try {
+                if (path == 0) {
+                    PolarGrid G(rad, ang);
+                    got = G.nr() == (int)rad.size() && G.ntheta() == (int)ang.size() - 1;
+                }
+                else {
+                    std::string fr = dir + "/v_radii.txt", fa = dir + "/v_angles.txt";
+                    {
+                        std::ofstream o(fr), p(fa);
+                        o.precision(18);
+                        p.precision(18);
+                        for (double r : rad)
+                            o << std::fixed << r << "\n";
+                        for (double a : ang)
+                            p << std::fixed << a << "\n";
+                    }
+                    PolarGrid G(fr, fa);
+                    got = true;
+                }
+            }
+            catch (const std::exception& e) {
+                got  = false;
+                what = e.what();
+            }
+            if (got != want)
+                fail = std::string(path ? "grid-file constructor " : "vector constructor ") + (got ? "accepts" : "rejects (" + what.substr(0, 60) + ")") +
+                       " a coordinate set the specification " + (want ? "accepts" : "rejects: " + t["why"].str());
+        }
+        if (!fail.empty()) {
+            nfail++;
+            if (nfail <= 30)
+                std::cout << "{\"fail\":true,\"what\":\"" << mj::escape(fail) << "\",\"table\":" << line << "}\n";
+        }
+    }
+    std::cout << "{\"summary\":true,\"cases\":" << n << ",\"failed\":" << nfail << "}\n";
+    return 0;
+}
+
 int main(int argc, char** argv)
 {
     std::string m = argc > 1 ? argv[1] : "";
+    if (m == "valid" && argc > 3)
+        return valid(argv[2], argv[3]);
     if (m == "gen" && argc > 2)
         return gen(argv[2]);
     if (m == "load" && argc > 3)
